@@ -356,6 +356,40 @@ pub fn det_group(rng: &mut Rng, max_objects: usize, group: usize) -> Vec<String>
             m = edited.map;
         }
     }
+    // a different map of the same size right after this one, on the same thread and call path: it must
+    // give what it gives on a thread that has never calculated anything (per-thread caches keyed by
+    // sizes or addresses would leak from one job into the next)
+    for (i, j) in jobs.iter().enumerate() {
+        let mut twin = j.map.clone();
+        twin.hp = (twin.hp + 4.7) % 10.0;
+        twin.ar = (twin.ar + 5.3) % 10.0;
+        twin.od = (twin.od + 3.1) % 10.0;
+        for h in twin.hit_objects.iter_mut() {
+            h.start_time = h.start_time * 3.0 + 17.0;
+        }
+        let d = reused[i].clone();
+        if twin.convert_ref(mode_of(j.target), &d.clone().inspect().mods).is_err() {
+            continue;
+        }
+        let twin_job = Job { text: j.text.clone(), shape: j.shape, map: twin, target: j.target, st: j.st.clone(), spec: j.spec.clone() };
+        let fresh = std::thread::scope(|sc| {
+            sc.spawn(|| catch_unwind(AssertUnwindSafe(|| signatures(&twin_job, &d, &states)))).join()
+        });
+        let _ = catch_unwind(AssertUnwindSafe(|| signatures(j, &d, &states)));
+        let here = catch_unwind(AssertUnwindSafe(|| signatures(&twin_job, &d, &states)));
+        evals[i] += 2;
+        if let (Ok(Ok(a)), Ok(b)) = (fresh, here) {
+            for ((name, x), (_, y)) in b.iter().zip(a.iter()) {
+                if *name != "decode" && x != y && fails[i].len() < 4 {
+                    fails[i].push(format!(
+                        "{name} of a same-sized sibling map calculated right after this one differs from its result on a fresh thread: {} vs {}",
+                        &x[..x.len().min(200)],
+                        &y[..y.len().min(200)]
+                    ));
+                }
+            }
+        }
+    }
     // interleaved instances: two gradual calculators (different maps / settings) stepped
     // alternately on this thread must each produce the sequence they produce alone
     for i in 0..jobs.len().saturating_sub(1) {
